@@ -264,6 +264,20 @@ def N16():  # --target given as a relative path: the marks went to <target>/<tar
         shutil.rmtree(root, ignore_errors=True)
 
 
+def R5():   # a second, no-option run lower-cased an upper-case abbreviation of an earlier commit id and so changed commit ids
+    root, repo = new_repo()
+    try:
+        commit(repo, {'f': '1'}, 'c1')
+        h = e2e.git(repo, 'rev-parse', '--short=10', 'HEAD').decode().strip().upper()
+        commit(repo, {'f': '12'}, f'fix for {h} here')
+        before = e2e.refs(repo)
+        rc1, _, _ = tool(repo, '--force')
+        rc2, _, _ = tool(repo, '--force')
+        return rc1 != 0 or rc2 != 0 or e2e.refs(repo) != before
+    finally:
+        shutil.rmtree(root, ignore_errors=True)
+
+
 def F12():  # file replaced by a directory of the same name in one commit: the directory's files are lost
     root, repo = new_repo()
     try:
